@@ -12,10 +12,12 @@ package main
 // for limb, wrap-around included.
 
 import (
+	"bytes"
 	"encoding/binary"
 	"fmt"
 	"math/big"
 	"strconv"
+	"strings"
 
 	"github.com/cloudflare/pat-go/ed25519"
 )
@@ -229,6 +231,104 @@ func c14ScalarMult(c *Ctx, r *Rng) {
 			}
 			c.Direct(out == "ok "+hxv(want), "scalar multiplication differs from the math/big Edwards reference",
 				map[string]any{"op": op, "a": hx(a), "A": hx(A), "b": hx(b), "impl": out, "want": hx(want)})
+		}
+	}
+}
+
+func init() {
+	replayers["c14.dg"] = func(c *Ctx, a []string) string {
+		return "ok " + hxv(ed25519.VerifScalarDigits(a[0], unhx(a[1])))
+	}
+}
+
+// c14Digits: the two digit recodings below the scalar multiplications — signed radix 16 (`ScalarBaseMult`, `ScalarMult`) and the
+// width-5 / width-8 non-adjacent forms (`VarTimeDoubleScalarBaseMult`) — on the digit patterns of c14ScalarMult plus scalars next
+// to L, powers of two and their neighbours. The main driver answers from the specification (digit expansions computed from the
+// number), scdriver from the literal model of the Go loops (Model/Recode.lean, about which Proofs/Recode.lean is); the direct
+// oracle re-evaluates the digits with math/big and checks the digit sets: value = scalar mod L, radix-16 digits in [-8, 8) with
+// the top one in [0, 8], NAF digits zero or odd with |d| < 2^(w-1) and no two non-zero digits within w positions.
+func c14Digits(c *Ctx, r *Rng) {
+	L, _ := new(big.Int).SetString("7237005577332262213973186563042994240857116359379907606001950938285454250989", 10)
+	words := []uint32{0x77777777, 0x88888888, 0x77777778, 0x87777777, 0x78888888, 0xffffffff, 0, 0x80000000, 0x7fffffff, 0x0f0f0f0f, 0xf0f0f0f0,
+		0x11111111, 0x0000001f, 0xfffffff0, 0x55555555, 0xaaaaaaaa, 1, 0x0000000f, 0x00000010, 0xfffffff1, 0x7f7f7f7f, 0x80808080, 0xf8f8f8f8}
+	le32 := func(x *big.Int) []byte {
+		b := new(big.Int).Mod(x, new(big.Int).Lsh(big.NewInt(1), 256)).FillBytes(make([]byte, 32))
+		for i, j := 0, 31; i < j; i, j = i+1, j-1 {
+			b[i], b[j] = b[j], b[i]
+		}
+		return b
+	}
+	var fixed [][]byte
+	for _, k := range []int{0, 1, 3, 4, 5, 7, 8, 63, 64, 65, 127, 128, 200, 248, 249, 250, 251, 252} {
+		p := new(big.Int).Lsh(big.NewInt(1), uint(k))
+		for _, d := range []int64{-1, 0, 1} {
+			v := new(big.Int).Add(p, big.NewInt(d))
+			if v.Sign() >= 0 {
+				fixed = append(fixed, le32(v))
+			}
+		}
+	}
+	for d := int64(-3); d <= 3; d++ {
+		fixed = append(fixed, le32(new(big.Int).Add(L, big.NewInt(d))))
+	}
+	fixed = append(fixed, bytes.Repeat([]byte{0xff}, 32), bytes.Repeat([]byte{0x88}, 32), bytes.Repeat([]byte{0x77}, 32), bytes.Repeat([]byte{0x0f}, 32),
+		bytes.Repeat([]byte{0xf0}, 32), bytes.Repeat([]byte{0x1f}, 32), bytes.Repeat([]byte{0x80}, 32), bytes.Repeat([]byte{0x7f}, 32))
+	n := c.Pick(400, 20000)
+	for i := 0; i < n+len(fixed); i++ {
+		var x []byte
+		switch {
+		case i < len(fixed):
+			x = fixed[i]
+		case i%3 == 0:
+			x = r.Bytes(32)
+		default:
+			x = make([]byte, 32)
+			for j := 0; j < 8; j++ {
+				w := words[r.IntN(len(words))]
+				if r.IntN(6) == 0 {
+					w = r.Uint32()
+				}
+				binary.LittleEndian.PutUint32(x[4*j:], w)
+			}
+		}
+		if i >= len(fixed) && r.IntN(4) != 0 {
+			x[31] &= 0x0f
+		}
+		k := new(big.Int).Mod(leInt(x), L)
+		for _, kind := range []string{"radix16", "naf5", "naf8"} {
+			out := c.Run("c14.dg", kind, hx(x))
+			c.Count("digits:" + kind)
+			ds := unhx(strings.TrimPrefix(out, "ok "))
+			radix, w, want := uint(4), 0, 64
+			if kind != "radix16" {
+				radix, want = 1, 256
+				w = 5
+				if kind == "naf8" {
+					w = 8
+				}
+			}
+			okShape := len(ds) == want
+			sum := new(big.Int)
+			last := -1000
+			for j := len(ds) - 1; j >= 0; j-- {
+				d := int64(int8(ds[j]))
+				sum.Lsh(sum, radix).Add(sum, big.NewInt(d))
+			}
+			for j := 0; j < len(ds); j++ {
+				d := int(int8(ds[j]))
+				if kind == "radix16" {
+					if j < 63 && (d < -8 || d > 7) || j == 63 && (d < 0 || d > 8) {
+						okShape = false
+					}
+				} else if d != 0 {
+					if d%2 == 0 || d >= 1<<(w-1) || d <= -(1<<(w-1)) || j-last < w {
+						okShape = false
+					}
+					last = j
+				}
+			}
+			c.Direct(okShape && sum.Cmp(k) == 0, "digit recoding does not represent the scalar, or a digit is outside its set",
+				map[string]any{"kind": kind, "x": hx(x), "impl": out, "value": sum.String(), "want": k.String()})
 		}
 	}
 }
